@@ -611,7 +611,7 @@ def shrink_candidates(case):
     for mps in shrink_list(case["mps"], 1):
         yield dict(case, mps=mps)
     ops = case["ops"]
-    for i in range(len(ops) - 1, -1, -1):
+    for i in range(len(ops) - 1, case["n"] - 1, -1):  # the first layer (one gate per wire, in order) stays
         if ops[i][0] == "measure":
             continue  # removing a measurement renumbers the others
         yield dict(case, ops=ops[:i] + ops[i + 1:])
